@@ -182,7 +182,8 @@ def render_def(prog, d):
     if d.get("kwdef") is not None:
         params += ", *, kw=%s" % _lit(d["kwdef"])
     lines.append("def %s(%s):\n" % (rn(d), params))
-    lines.append("    verif_rt.rec(%r)\n" % ("%s.%s" % (d["mod"], d["name"])))
+    # (twin helpers in two modules have byte-identical text, so they report under one label)
+    lines.append("    verif_rt.rec(%r)\n" % (("twin.%s" % rn(d)) if (d.get("rname") or d["name"] == "h9") else "%s.%s" % (d["mod"], d["name"])))
     inners = []
     base = _rexpr(prog, d, d["base"], inners)
     body = _rexpr(prog, d, d["body"], inners)
